@@ -56,16 +56,17 @@ type Unit struct {
 	Outs    []int  `json:"outs"` // flow: value types produced, in result order
 	HasErr  bool   `json:"haserr"`
 	WantCtx bool   `json:"wantctx"`
-	Pred    int    `json:"pred"`    // task: unit id of its predicate, 0 if none
-	Task    int    `json:"task"`    // pred: the task it guards
-	FB      bool   `json:"fb"`      // task: has FallbackWith
-	Invoke  bool   `json:"invoke"`  // task: Invoke(true)
-	Instr   bool   `json:"instr"`   // task: instrumented
-	Coll    int    `json:"coll"`    // selem/send/melem/mend: collection number
-	Len     int    `json:"len"`     // selem/melem: size of the collection (-1 = nil)
-	WithIdx bool   `json:"withidx"` // selem: function takes the index
-	End     int    `json:"end"`     // selem/melem: unit id of the End hook, 0 if none
-	NArgs   int    `json:"nargs"`   // number of h.Arg-wrapped expressions this unit's option contributes (informational)
+	Pred    int    `json:"pred"`            // task: unit id of its predicate, 0 if none
+	Task    int    `json:"task"`            // pred: the task it guards
+	FB      bool   `json:"fb"`              // task: has FallbackWith
+	FBNil   []int  `json:"fbnil,omitempty"` // task: 1 for each output whose fallback is spelled as the literal nil
+	Invoke  bool   `json:"invoke"`          // task: Invoke(true)
+	Instr   bool   `json:"instr"`           // task: instrumented
+	Coll    int    `json:"coll"`            // selem/send/melem/mend: collection number
+	Len     int    `json:"len"`             // selem/melem: size of the collection (-1 = nil)
+	WithIdx bool   `json:"withidx"`         // selem: function takes the index
+	End     int    `json:"end"`             // selem/melem: unit id of the End hook, 0 if none
+	NArgs   int    `json:"nargs"`           // number of h.Arg-wrapped expressions this unit's option contributes (informational)
 }
 
 // Prog is the abstract program a rendered function implements.
